@@ -6,6 +6,7 @@ import KyupyVerif.Drv.Datasheet
 import KyupyVerif.Drv.Traverse
 import KyupyVerif.Drv.CircObj
 import KyupyVerif.Drv.Netlist
+import KyupyVerif.Drv.NetText
 import KyupyVerif.Drv.Transform
 import KyupyVerif.Drv.WaveStrip
 /-! Stateless driver extensions: each module `KyupyVerif/Drv/<Name>.lean` defines
@@ -22,6 +23,7 @@ def extHandlers : List (String → List String → Option String) := [
   KV.Drv.Traverse.handle,
   KV.Drv.CircObj.handle,
   KV.Drv.Netlist.handle,
+  KV.Drv.NetText.handle,
   KV.Drv.Transform.handle,
   KV.Drv.WaveStrip.handle
 ]
